@@ -110,11 +110,12 @@ def valid_request(rng, code):
             return u64(idx | 0x100), 0
         return u64(idx), 1
     if code == GET_CONFIG:
-        off = rng.choice([0, 0x100, 0xfff]); sz = rng.choice([1, 8, 0x100])
+        # 0xff4 = the largest payload: 12 + 4084 = a body of exactly MAX_MSG_SIZE bytes
+        off = rng.choice([0, 0, 0x100, 0xfff]); sz = rng.choice([1, 8, 0x100, 0xff4, 0xff3])
         sz = min(sz, 0x1000 - off)
         return config(off, sz, rng.choice([0, 1, 2, 3]), bytes(sz)), 0
     if code == SET_CONFIG:
-        off = rng.choice([0, 0x100, 0xfff]); sz = rng.choice([1, 8, 0x100])
+        off = rng.choice([0, 0, 0x100, 0xfff]); sz = rng.choice([1, 8, 0x100, 0xff4, 0xff3])
         sz = min(sz, 0x1000 - off)
         return config(off, sz, rng.choice([0, 1, 2, 3]), bytes(rng.getrandbits(8) for _ in range(sz))), 0
     if code == SET_BACKEND_REQ_FD or code == GPU_SET_SOCKET:
